@@ -28,11 +28,14 @@ def generate_and_drive(ctx):
                                           "-slices", slices, "-slicestride", "9" if q else "2"], timeout=3000))
     if s["extra"].get("cbcs_spec_slices", 0) < 100:
         raise core.Machinery("only %d cbcs runs on spec-serialised slices" % s["extra"].get("cbcs_spec_slices", 0))
+    if s["extra"].get("corpus_decrypted", 0) < 5:
+        raise core.Machinery("only %d third-party encrypted corpus files decrypted and compared" % s["extra"].get("corpus_decrypted", 0))
     if s["extra"]["tool_runs"] < 50:
         raise core.Machinery("only %d runs of the mp4ff-encrypt / mp4ff-decrypt binaries" % s["extra"]["tool_runs"])
     ctx.cov["bounds"] = {"nal_sizes": "classes around 16/96/112/128 and the 64 KiB clear-run split", "nals_per_sample": "1..2 (3 for the 64 KiB set)",
                          "samples_per_fragment": "1..3", "schemes": ["cenc (avc, hevc, audio)", "cbcs (audio; avc: generated multi-slice samples with real slice-header heads, %d samples made of slices serialised by AvcSyntax.tla (every header variation), and corpus init.mp4+1.m4s)" % s["extra"].get("cbcs_spec_slices", 0)],
                          "ivs": "8 and 16 bytes: zero, one, ..00ff (carry), ff..fe, ff..ff (wrap), mixed, random",
                          "extra_boxes": ["none", "vndr+zzzz+moof-level uuid", "also a non-senc uuid inside traf"],
+                         "third_party_files": "%d encrypted corpus files (cenc/cbcs multi-traf, cbcs audio, PIFF audio+video) decrypted by the library and by the harness's own senc walker + raw AES, compared sample by sample" % s["extra"].get("corpus_decrypted", 0),
                          "paths": "library API (InitProtect / EncryptFragment / DecryptInit / DecryptSegment) on every case; the built mp4ff-encrypt and mp4ff-decrypt binaries on %d of them" % s["extra"]["tool_runs"]}
     return s, t7, t6
